@@ -95,6 +95,21 @@ func histProgram(layout string, v int, constraint string) (files map[string]stri
 	return files, outputs
 }
 
+// histProgramTagged adds the layout "taggedinput": the converter is declared in a file that is only part of the package
+// under the first build tag (so both package loads must pass the tags).
+func histProgramTagged(layout string, v int, constraint, tag string) (map[string]string, []string) {
+	if layout != "taggedinput" {
+		return histProgram(layout, v, constraint)
+	}
+	files, outputs := histProgram("default", v, constraint)
+	delete(files, "use/use.go")
+	body := files["p/input.go"]
+	i := strings.Index(body, "// goverter:converter")
+	files["p/input.go"] = body[:i]
+	files["p/conv_tagged.go"] = "//go:build " + tag + "\n\npackage p\n\n" + body[i:]
+	return files, outputs
+}
+
 // checkHeader is the header monitor: line 1 marker, line 2 constraint (iff configured), blank, package clause.
 func checkHeader(path, content, constraint string) string {
 	ff := core.Analyze(path, []byte(content))
@@ -139,8 +154,8 @@ func C16(e *core.Env) int {
 	root := filepath.Join(e.Scratch, "c16")
 	os.MkdirAll(root, 0o755)
 	os.WriteFile(filepath.Join(root, "go.mod"), []byte("module vcase\n\ngo 1.22\n"), 0o644)
-	layouts := []string{"default", "samepkg", "sharedfile", "twofiles", "variables"}
-	pairs := []tagPair{{"", ""}, {"goverter,extra", "!goverter"}, {"extra,goverter", "!goverter"}, {"foo", "!foo"}, {"a,b", "!a"}, {"a,b", "!b"}, {"goverter", "EMPTY"}}
+	layouts := []string{"default", "samepkg", "sharedfile", "twofiles", "variables", "taggedinput"}
+	pairs := []tagPair{{"", ""}, {"goverter,extra", "!goverter"}, {"extra,goverter", "!goverter"}, {"foo", "!foo"}, {"a,b", "!a"}, {"a,b", "!b"}, {"goverter", "EMPTY"}, {"gen", "EMPTY"}, {"NONE", "!goverter"}, {"NONE", "!foo"}}
 	priors := []string{"absent", "current", "older", "longer", "truncated", "broken"}
 	type hist struct {
 		layout string
@@ -169,9 +184,13 @@ func C16(e *core.Env) int {
 		constraint := "!goverter"
 		var args []string
 		switch {
+		case h.pair.tags == "NONE":
+			// no build tags at all: the configured constraint must still be written
+			constraint = h.pair.constraint
+			args = []string{"gen", "-build-tags", "", "-output-constraint", h.pair.constraint, "./..."}
 		case h.pair.constraint == "EMPTY":
 			constraint = ""
-			args = []string{"gen", "-output-constraint", "", "./..."}
+			args = []string{"gen", "-build-tags", h.pair.tags, "-output-constraint", "", "./..."}
 		case h.pair.tags == "":
 			args = []string{"gen", "./..."}
 		default:
@@ -191,14 +210,25 @@ func C16(e *core.Env) int {
 		}
 		// clean-tree reference generation of version 2
 		cleanDir := filepath.Join(root, name+"c")
-		v2, outputs := histProgram(h.layout, 2, constraint)
+		firstTag := strings.Split(h.pair.tags, ",")[0]
+		if h.pair.tags == "" {
+			firstTag = "goverter"
+		}
+		if h.layout == "taggedinput" && h.pair.tags == "NONE" {
+			return // an input guarded by a tag cannot be seen without tags
+		}
+		v2, outputs := histProgramTagged(h.layout, 2, constraint, firstTag)
+		if h.pair.tags == "NONE" || constraint == "" {
+			// user files that reference not-yet-generated code need the complementary tag pair
+			for p := range v2 {
+				if strings.HasSuffix(p, "use.go") {
+					delete(v2, p)
+				}
+			}
+		}
 		writeFiles(cleanDir, fix(v2, name+"c"))
 		clean := runGen(e, bin, cleanDir, cleanDir, args, nil)
 		if clean.Exit != 0 {
-			if constraint == "" {
-				// without a constraint the guarded user file cannot exist; nothing to compare
-				return
-			}
 			bad("clean_generation_failed", "clean-tree generation failed: "+core.Classify(clean.Stderr)+": "+firstLine(clean.Stderr), clean.Stderr, cleanDir)
 			return
 		}
@@ -214,20 +244,17 @@ func C16(e *core.Env) int {
 			}
 		}
 		if h.prior == "absent" {
-			res.nt = ""
-			if constraint != "" {
-				res.nt = "absent|" + h.layout + "|" + h.pair.tags
-			}
+			res.nt = "absent|" + h.layout + "|" + h.pair.tags + "|" + constraint
 			return
 		}
-		if constraint == "" {
+		if constraint == "" || h.pair.tags == "NONE" {
 			return // regeneration over broken output is not guaranteed without a constraint
 		}
 		// history
 		dir := filepath.Join(root, name)
 		switch h.prior {
 		case "older":
-			v1, _ := histProgram(h.layout, 1, constraint)
+			v1, _ := histProgramTagged(h.layout, 1, constraint, firstTag)
 			writeFiles(dir, fix(v1, name))
 			first := runGen(e, bin, dir, dir, args, nil)
 			if first.Exit != 0 {
